@@ -72,6 +72,10 @@ MUTANTS = {
         ('getxattr-count-as-value', S, "            Ok(GetxattrReply::Count(count)) => {\n                let out = GetxattrOut {\n                    size: count,", "            Ok(GetxattrReply::Count(count)) => {\n                let out = GetxattrOut {\n                    size: count + 1,"),
     ],
     'C04': [
+        ('writer-enum-bytes-written-is-available', T, "            Writer::FuseDev(w) => w.bytes_written(),", "            Writer::FuseDev(w) => w.available_bytes(),"),
+        ('writer-enum-write-from-at-offset-dropped', T, "            Writer::VirtioFs(w) => w.write_from_at(src, count, off),", "            Writer::VirtioFs(w) => w.write_from_at(src, count, 0),"),
+        ('writer-enum-commit-drops-other', T, "            Writer::FuseDev(w) => w.commit(other),", "            Writer::FuseDev(w) => w.commit(None),"),
+        ('writer-enum-write-twice', T, "            Writer::FuseDev(w) => w.write(buf),", "            Writer::FuseDev(w) => { let _ = w.write(buf); w.write(buf) }"),
         ('async-write3-check-omits-data3', 'src/transport/virtiofs/mod.rs', "            self.check_available_space(data.len(), data2.len(), data3.len())?;", "            self.check_available_space(data.len(), data2.len(), 0)?;"),
         ('fdw-space-check-ge', 'src/transport/fusedev/mod.rs', "        if sz > self.available_bytes() {", "        if sz >= self.available_bytes() {"),
         ('fdw-write-vectored-skips-short-slices', 'src/transport/fusedev/mod.rs', "filter(|b| !b.is_empty())", "filter(|b| b.len() > 1)"),
@@ -109,6 +113,8 @@ MUTANTS = {
         ('read-to-marks', 'src/transport/mod.rs', ".consume_for_read(count, |bufs| dst.write_vectored_volatile(bufs))", ".consume_for_write(count, |bufs| dst.write_vectored_volatile(bufs))"),
     ],
     'C20': [
+        ('writer-enum-async-write2-swapped', T, "            Writer::FuseDev(w) => w.async_write2(data, data2).await,", "            Writer::FuseDev(w) => w.async_write2(data2, data).await,"),
+        ('writer-enum-async-commit-is-sync-commit', T, "            Writer::VirtioFs(w) => w.async_commit(other).await,", "            Writer::VirtioFs(w) => w.commit(other),"),
         ('async-fallocate-swap', 'src/api/server/async_io.rs', ".async_fallocate(ctx.context(), ctx.nodeid(), fh.into(), mode, offset, length)", ".async_fallocate(ctx.context(), ctx.nodeid(), fh.into(), mode, length, offset)"),
         ('async-dispatch-fsync-to-fsyncdir', 'src/api/server/async_io.rs', "x if x == Opcode::Fsync as u32 => self.async_fsync(ctx).await,", "x if x == Opcode::Fsync as u32 => self.async_fsyncdir(ctx).await,"),
         ('async-dispatch-setlkw-to-setlk', 'src/api/server/async_io.rs', "x if x == Opcode::Setlkw as u32 => self.setlkw(ctx),", "x if x == Opcode::Setlkw as u32 => self.setlk(ctx),"),
